@@ -13,6 +13,7 @@ import CR.Model.Gen
 import CR.Model.Validate
 import CR.Model.Batch
 import CR.Model.Report
+import CR.Model.Heap
 
 open Lean CR
 
@@ -365,6 +366,29 @@ def opReport (j : Json) : Except String Json := do
 
 end CR.Drv
 
+/-- a sequence of solves on ONE shared description through the aliasing model: returns every
+outcome and the caller's lists afterwards -/
+def opSolveSeq {α : Type} (c : Codec α) [Add α] [Sub α] [Mul α] [Div α] [Neg α] [LT α] [DecidableLT α]
+    [LE α] [DecidableLE α] [BEq α] [OfNat α 0] [OfNat α 1] (j : Json) : Except String Json := do
+  let g ← parseGame c j
+  let thr ← parseNum c (← j.getObjVal? "thr")
+  let fuel := getNatD j "fuel" 200000
+  let modes ← (← getArr j "modes").mapM (fun m => match m with
+    | .bool b => pure b
+    | _ => throw "mode must be bool")
+  -- thread the description exactly as `runOps` does, also collecting it
+  let rec go (ms : List Bool) (desc : Array (List (Tr α))) (acc : Array Json) : Array Json × Array (List (Tr α)) :=
+    match ms with
+    | [] => (acc, desc)
+    | m :: rest =>
+      let r := solveHS (c.rnd 6) thr fuel m { g with tl := desc }
+      let jr := match r.1 with
+        | .ok o => solveOutJson c o
+        | .error e => errJson e
+      go rest r.2 (acc.push jr)
+  let (outs, post) := go modes.toList g.tl #[]
+  pure (Json.mkObj [("outcome", "ok"), ("results", Json.arr outs), ("post", nodesJson c post)])
+
 def handle (line : String) : Json :=
   match Json.parse line with
   | .error e => Json.mkObj [("outcome", "bad-request"), ("detail", Json.str e)]
@@ -390,6 +414,8 @@ def handle (line : String) : Json :=
       | "batch", _ => CR.Drv.opBatch j
       | "manualname", _ => CR.Drv.opManualName j
       | "report", _ => CR.Drv.opReport j
+      | "solve_seq", "float" => opSolveSeq floatCodec j
+      | "solve_seq", _ => opSolveSeq ratCodec j
       | _, _ => throw s!"unknown op {op}"
     match r with
     | .ok v => v
